@@ -5,7 +5,7 @@ import ast
 from typing import Dict, FrozenSet, List, Optional, Set, Tuple
 
 from ..cfg import CFG, Node
-from ..core import AnalysisError, Func, Ob, bind_args, dotted, kw, need, ob, short, src, uncopy, walk_no_nested
+from ..core import AnalysisError, Func, Ob, bind_args, bool_equiv, dotted, kw, need, ob, short, src, uncopy, walk_no_nested
 from ..flow import forward, node_calls, node_defs, node_exprs
 from ..runner import Ctx, rule
 from .mainmodel import mainmodel
@@ -21,6 +21,8 @@ class BoxFlow:
     def __init__(self, ctx: Ctx, f: Func, lb: str, ub: str, inbox_params: Set[str], free_inbox: Set[str] = frozenset()):
         self.f, self.lb, self.ub = f, lb, ub
         self.cfg: CFG = ctx.cfg(f)
+        from ..flow import Expander
+        self.exp = Expander(ctx, f)
         self.free_inbox = set(free_inbox)
         from ..alias import engine
         fa = engine(ctx).fa[f.qual]
@@ -67,6 +69,9 @@ class BoxFlow:
         if isinstance(e, ast.Call):
             if self.projection(e, st) == "ok":
                 return True
+            inl = self.exp._inline_call(e, 4)     # small package helper: look at what it returns
+            if inl is not None and src(inl) != src(e):
+                return self.inbox(inl, st)
             d = dotted(e.func) or ""
             if d in COPYLIKE_F and e.args:
                 return self.inbox(e.args[0], st)
@@ -260,24 +265,17 @@ def rule_fdb(ctx: Ctx) -> List[Ob]:
                           f"finite_diff_bounds <- {short(v)}; local redefinitions of bounds: {rdefs or 'none'}",
                           construct=f"ScalarFunction(finite_diff_bounds={short(v)})"))
     need(n2 >= 1, "FDB: ScalarFunction construction not found")
-    # hop 3: options['bounds'] under a test covering all modes
-    hit = None
-    for s in walk_no_nested(init.node):
-        if isinstance(s, ast.Assign) and isinstance(s.targets[0], ast.Subscript) and \
-                isinstance(s.targets[0].slice, ast.Constant) and s.targets[0].slice.value == "bounds":
-            hit = s
-    ok3 = hit is not None and src(hit.value) == "finite_diff_bounds"
-    cond = None
-    if hit is not None:
-        for p in walk_no_nested(init.node):
-            if isinstance(p, ast.If) and hit in p.body:
-                cond = p.test
-    ok3 = ok3 and cond is not None and src(cond) == "grad in FD_METHODS"
-    obs.append(ob("FDB", "options['bounds'] is filled for every finite-difference mode", init, hit or init.node, bool(ok3),
-                  f"{short(hit) if hit else 'no store of options[bounds]'} under `{short(cond)}`",
-                  construct="finite_diff_options['bounds'] = finite_diff_bounds"))
-    # hop 4
-    dictname = src(hit.targets[0].value) if hit is not None else "finite_diff_options"
+    # hop 3+4: the dict splatted into approx_derivative carries bounds=finite_diff_bounds in every FD mode
+    def guard_of(fn_node, stmt):
+        """innermost if-condition (as an expression) under which stmt runs, or None"""
+        best = None
+        for p in ast.walk(fn_node):
+            if isinstance(p, ast.If):
+                if any(stmt is x for b in p.body for x in ast.walk(b)):
+                    best = p.test
+                elif any(stmt is x for b in p.orelse for x in ast.walk(b)):
+                    best = ast.UnaryOp(op=ast.Not(), operand=p.test)
+        return best
     n4 = 0
     for q, g in ctx.repo.funcs.items():
         if g.cls != "ScalarFunction":
@@ -285,12 +283,35 @@ def rule_fdb(ctx: Ctx) -> List[Ob]:
         for c in walk_no_nested(g.node):
             if isinstance(c, ast.Call) and (dotted(c.func) or "").endswith("approx_derivative"):
                 n4 += 1
-                star = [k for k in c.keywords if k.arg is None and src(k.value) == dictname]
+                stars = [k.value for k in c.keywords if k.arg is None and isinstance(k.value, ast.Name)]
                 over = kw(c, "bounds")
-                ok = bool(star) and over is None
-                obs.append(ob("FDB", "differencer receives the options (incl. bounds) unchanged", g, c, ok,
-                              f"**{dictname} passed={bool(star)}, explicit bounds= override={short(over) if over is not None else 'none'}",
-                              construct=short(c, 90)))
+                ok4 = len(stars) == 1 and over is None
+                obs.append(ob("FDB", "differencer receives the options (incl. bounds) unchanged", g, c, ok4,
+                              f"**{stars[0].id if stars else '?'} passed={bool(stars)}, explicit bounds= override={short(over) if over is not None else 'none'}",
+                              construct="approx_derivative(fun, x0, f0=, **options)"))
+                if not stars:
+                    continue
+                D = stars[0].id
+                entries = []
+                for s in ast.walk(init.node):
+                    if isinstance(s, ast.Assign) and len(s.targets) == 1:
+                        t = s.targets[0]
+                        if isinstance(t, ast.Name) and t.id == D and isinstance(s.value, ast.Dict):
+                            for kk, vv in zip(s.value.keys, s.value.values):
+                                if isinstance(kk, ast.Constant) and kk.value == "bounds":
+                                    entries.append((vv, guard_of(init.node, s), s))
+                        elif isinstance(t, ast.Subscript) and src(t.value) == D and isinstance(t.slice, ast.Constant) and t.slice.value == "bounds":
+                            entries.append((s.value, guard_of(init.node, s), s))
+                good = [e for e in entries if src(e[0]) == "finite_diff_bounds" and
+                        (e[1] is None or bool_equiv(e[1], "grad in FD_METHODS"))]
+                bad = [e for e in entries if e not in good]
+                ok3 = bool(good) and not bad
+                obs.append(ob("FDB", "options['bounds'] is the caller's box in every finite-difference mode", init,
+                              (entries[0][2] if entries else init.node), ok3,
+                              ("; ".join(f"bounds <- {short(v)} under `{short(cnd) if cnd is not None else 'always'}`" for v, cnd, _ in entries)
+                               or f"the dict `{D}` never receives a 'bounds' entry") +
+                              ("" if ok3 else ": in some finite-difference mode the stencil is not confined to [lb, ub]"),
+                              construct=f"{D}['bounds'] = finite_diff_bounds  (grad in FD_METHODS)"))
     need(n4 >= 1, "FDB: approx_derivative call not found")
     return obs
 
@@ -325,9 +346,9 @@ def rule_modes(ctx: Ctx) -> List[Ob]:
     last_else = tests[-1].orelse if tests else []
     raises = any(isinstance(x, ast.Raise) for b in last_else for x in ast.walk(b))
     for want in ("callable(jac)", "jac in FD_METHODS", "jac is None"):
-        obs.append(ob("MODES", f"factory handles `{want}`", psf, tests[0] if tests else psf.node, want in conds,
+        obs.append(ob("MODES", f"factory handles `{want}`", psf, tests[0] if tests else psf.node, any(bool_equiv(t.test, want) for t in tests),
                       f"branches: {conds}", construct=f"prepare_scalar_function: branch {want}"))
-    none_branch = [t for t in tests if src(t.test) == "jac is None"]
+    none_branch = [t for t in tests if bool_equiv(t.test, "jac is None")]
     okn = bool(none_branch) and any(isinstance(s, ast.Assign) and src(s.targets[0]) == "grad" and
                                     isinstance(s.value, ast.Constant) and s.value.value in vals for s in none_branch[0].body)
     obs.append(ob("MODES", "jac=None maps to a listed differencing scheme", psf, none_branch[0] if none_branch else psf.node, okn,
@@ -339,8 +360,9 @@ def rule_modes(ctx: Ctx) -> List[Ob]:
     upd = [g for q, g in ctx.repo.funcs.items() if g.name == "update_grad" and g.parent is init]
     obs.append(ob("MODES", "wrapper defines a gradient updater for callable and for finite-difference modes", init, init.node,
                   len(upd) == 2, f"{len(upd)} update_grad definitions", construct="ScalarFunction.__init__: update_grad x2"))
-    g0 = init.node.body[0] if init.node.body else None
-    okg = isinstance(g0, ast.If) and src(g0.test) == "not callable(grad) and grad not in FD_METHODS" and \
+    body0 = [x for x in init.node.body if not (isinstance(x, ast.Expr) and isinstance(x.value, ast.Constant))]
+    g0 = body0[0] if body0 else None
+    okg = isinstance(g0, ast.If) and bool_equiv(g0.test, "not callable(grad) and grad not in FD_METHODS") and \
         any(isinstance(x, ast.Raise) for x in ast.walk(g0))
     obs.append(ob("MODES", "wrapper rejects anything but a callable or a listed scheme", init, g0 or init.node, bool(okg),
                   f"first statement: {short(g0, 80)}", construct="ScalarFunction.__init__: mode guard"))
